@@ -4,6 +4,7 @@ import (
 	"fmt"
 	"os"
 	"path/filepath"
+	"regexp"
 	"sort"
 	"strings"
 
@@ -11,6 +12,18 @@ import (
 	"golang.org/x/tools/go/ssa"
 	"golang.org/x/tools/go/ssa/ssautil"
 )
+
+// harnessDefines: overrides of integer constants of the harness files ("const name = <int>" lines),
+// used by the thorough tier to deepen data bounds without a second copy of the harness.
+var harnessDefines = map[string]string{}
+
+func applyDefines(src []byte) []byte {
+	for k, v := range harnessDefines {
+		re := regexp.MustCompile(`(?m)^const ` + regexp.QuoteMeta(k) + ` = \d+`)
+		src = re.ReplaceAll(src, []byte("const "+k+" = "+v))
+	}
+	return src
+}
 
 type Loaded struct {
 	Prog *ssa.Program
@@ -32,7 +45,7 @@ func loadRepo(repo string, harnessDir string, extra map[string]string) (*Loaded,
 		if err != nil {
 			return nil, err
 		}
-		overlay[filepath.Join(repo, "zz_verif_"+base)] = b
+		overlay[filepath.Join(repo, "zz_verif_"+base)] = applyDefines(b)
 	}
 	for k, v := range extra {
 		overlay[filepath.Join(repo, k)] = []byte(v)
